@@ -127,6 +127,8 @@ def apply_contract(eng, st, c, args, kw, node, arg_exprs=(), kw_exprs=None, recv
     post = Ctx(eng, st, env2, result=rterm, old=OldCtx(eng, pre_heap, pre_env))
     object.__setattr__(post, "_result_val", res)
     for nm, f in c.ensures:
+        if nm.startswith("step."):
+            continue          # internal proof step of the callee's own verification (mentions its locals)
         st.assume(f(post))
     return res if res is not None else NONE
 
